@@ -6,6 +6,9 @@
      OK final rounds=<r> contigs=<c> steps=<n> spur=<k>    every record was an enabled transition of Protocol.step
                                                            (or a check that held) and the last model state is final
      HANG stuck=<0|1> enabled=<tids>                       replay of a hung run: does the model say nothing is enabled?
+     HANG-UNEXPLAINED current-rule:[..] old-rule:[..]      a hung run that is not a trace of the model of the current
+                                                           code; second verdict = replay under the pre-fix push rule
+                                                           (old_rule = true; "HANG stuck=1" = the C05-F1 deadlock)
      FAIL <index> <record> <why>
    What the driver itself decides (everything else is Model.step):
      - where the unlogged silent steps go (poll-loop exit, leaving a barrier, phases without a record, claim-loop exit):
@@ -55,9 +58,10 @@ let replay_line (toks : string list) : string =
       match rest with
       | st :: r -> (st, (match split_at "|" r with (_, [l]) -> l | (_, []) -> "-" | _ -> failwith "bad trace"))
       | [] -> failwith "no trace" in
-    if status <> "DONE" && status <> "JOINED" && status <> "HANG" then "NOTRACE " ^ status else begin
+    if status <> "DONE" && status <> "JOINED" && status <> "HANG" then "NOTRACE " ^ status else
+    let replay_with (oldr : bool) : string = begin
       let n = int_of_string thr in
-      let pa = { nthr = nat_of_int n; cap = n_of_hex capx; old_rule = false } in
+      let pa = { nthr = nat_of_int n; cap = n_of_hex capx; old_rule = oldr } in
       let concat = (mode = "s" || mode = "S") in
       let cmds = compile_calls concat (n_of_int (int_of_string pack)) (parse_calls script) in
       let st = ref (init pa cmds) in
@@ -171,7 +175,7 @@ let replay_line (toks : string list) : string =
           end else raise (Fail "unknown producer record")
         | "WF" ->
           prod e.(1);
-          do_step (LProd None) "producer step";
+          do_step (LProd (choose_ntf i)) "producer step";
           if pst !st <> PWaitF then raise (Fail "push waits although the model admits it")
         | "KF" ->
           prod e.(1);
@@ -289,7 +293,12 @@ let replay_line (toks : string list) : string =
       with Fail why ->
         Printf.sprintf "FAIL %d %s %s" !idx
           (if !idx < nev then String.concat "," (Array.to_list evs.(!idx)) else "end") (String.concat "_" (split_ws why))
-    end
+    end in
+    let r = replay_with false in
+    if status = "HANG" && String.length r >= 4 && String.sub r 0 4 = "FAIL" then
+      (* a hung run that the model of the current code cannot follow: is it a run of the OLD push rule (C05-F1)? *)
+      Printf.sprintf "HANG-UNEXPLAINED current-rule:[%s] old-rule:[%s]" r (replay_with true)
+    else r
   | _ -> "DRIVER-ERROR bad case"
 
 let () = run_lines replay_line
